@@ -435,7 +435,11 @@ static int check_pivotin_args (
 	 * work arrays still have the old dimensions */
 	if (p->basis == 0 || p->factorok == 0 || p->lp->vstat == 0 ||
 			p->lp->baz == 0 || p->qstatus == QS_LP_MODIFIED ||
-			p->lp->ncols != p->qslp->ncols || p->lp->nrows != p->qslp->nrows)
+			p->lp->ncols != p->qslp->ncols || p->lp->nrows != p->qslp->nrows ||
+			/* rows added with a live factorization update lp->nrows, but the work
+			 * vectors are only re-made by the next simplex call */
+			p->lp->zz.size != p->qslp->nrows || p->lp->yjz.size != p->qslp->nrows ||
+			p->lp->work.size != p->qslp->ncols)
 	{
 		QSlog("no factored basis available in %s", fname);
 		return 1;
